@@ -45,6 +45,23 @@ def handoff_queue_fifo(ctx):
                           "re-added tag is no longer moved to the front (LIFO order of drop-ins) when another tag was queued in between")
     ctx.counters["queue_operations"] = n_q
     ctx.floor("queue_operations", 2, "operations on drop_in_queue_ (the two producers' appends)")
+    # ... and every request is queued: the two producers append on every path.  "A remove for this tag is already pending, skip this one"
+    # looks idempotent but is not: remove T, add T, remove T within one interval ends with T still injected.
+    for q in ("Oomd::DropInServiceAdaptor::scheduleDropInAdd", "Oomd::DropInServiceAdaptor::scheduleDropInRemove"):
+        f = ctx.use(ctx.fn1(q))
+        app = [i for i in f.calls(*APPEND) if "recv" in f.nodes[i] and f.nodes[f.strip(f.nodes[i]["recv"])].get("qname") == QF and f.pos_of(i) is not None]
+        if not app:
+            ctx.broken("every-request-is-queued:" + short(f), "anchor", f.loc(), "no append to the hand-off queue in %s itself" % f.pq)
+            continue
+        fl = Flow(P, f, events={i: [("set", "queued")] for i in app}, cg=ctx.cg)
+        # (scheduleDropInAdd refuses a drop-in that does not compile: `return false` is the one exit that queues nothing)
+        bad = [f.loc(node) if node is not None else "end of function" for kind, node, b, parts in fl.exits()
+               if kind in ("return", "fallthrough") and not all("queued" in st.must for st in parts.values())
+               and not (kind == "return" and node is not None and ret_text(f, node) == "false")]
+        ctx.check(not bad, "every-request-is-queued:" + short(f), "must_pass_through", f.loc(),
+                  "%s appends its request on every path" % short(f),
+                  "%s can return (at %s) without having queued the request: the sequence of adds and removes the main loop applies is no longer the sequence the "
+                  "watcher saw, so the set of active drop-ins does not converge to the files present" % (f.pq, ", ".join(bad)))
 
 
 def tagged_dropins_all_erased(ctx):
